@@ -79,14 +79,12 @@ GEN = {"g0": (200, 1000), "s0": (0, 100), "s1": (101, 200)}
 
 @lemma(gen=GEN)
 def unpickled_collection_has_a_serial_number_of_its_own(g0: int, s0: int, pw: float, f0: float):
-    """pickle protocol spelt out as in contracts/C16_copies.py:unpickle; the original stays alive next to the clone"""
+    """pickle.loads(pickle.dumps(collection)); the original stays alive next to the clone"""
     assume(s0 <= g0)
     mk_class()
     pcmod.GLOBAL_SERIAL_NUM = g0
     pc = mk_coll(s0, pw, [f0])
-    fn, args, state = pc.__reduce__()
-    clone = fn(*args)
-    clone.__setstate__(pickle.loads(pickle.dumps(state)))
+    clone = pickle.loads(pickle.dumps(pc))
     assert clone.power == pw
     assert clone.serialNum != pc.serialNum, "two live collections never share a serial number"
 
